@@ -73,7 +73,9 @@ var faults = []struct{ kind, shape string; stmts []string }{
 var faultLine = map[string]int{"x = s[i]": 1, "x = s[const]": 1, "s[const] = v": 1, "s[i] op= v": 2, "m[k] = v": 0, "local m[const] = v": 1, "x = a / b": 1, "x %= b": 2,
 	"local a / local b": 2, "panic(msg)": 0, "panic in branch": 1, "x = p.f": 0, "p.f = v": 1, "p.m(x)": 1, "f(x) global": 0, "f(x) local": 1, "string index": 2, "slice bounds": 2}
 
-var filler = []string{"u := a + 1", "u := a * 2 - 1", "w := []int{a, a + 1}", "w := map[string]int{\"k\": a}", "o := &T{V: a}", "u := a", "u := a - 0"}
+var filler = []string{"u := a + 1", "u := a * 2 - 1", "w := []int{a, a + 1}", "w := map[string]int{\"k\": a}", "o := &T{V: a}", "u := a", "u := a - 0",
+	// function literals: what follows them in the same body still belongs to the enclosing function
+	"u := func(x int) int { return x + 1 }", "u := func(x int) int { return x + 1 }(a)", "w := []func() int{func() int { return 1 }}", "o := &T{V: func() int { return 2 }()}"}
 
 func genCase(rt *rapid.T) *Case {
 	b := &builder{}
